@@ -1,4 +1,4 @@
 SPECIFICATION Spec
 CHECK_DEADLOCK FALSE
 INVARIANT SelectionComplete
-CONSTANT Big = FALSE
+CONSTANT Big = TRUE
